@@ -38,7 +38,7 @@ int g_src_err, g_snk_err;
 
 #define EP_SRC_DRIVER ((void *)&g_src_pos)
 #define EP_SNK_DRIVER ((void *)&g_snk_pos)
-/* position p lies in [p0, p0 + n) (modulo 2^64, n <= SSIZE_MAX) */
+/* position p lies in [p0, p0 + n) (written with one comparison; p0 + n does not wrap) */
 #define EP_IN(p, p0, n) ((size_t)((size_t)(p) - (size_t)(p0)) < (size_t)(n))
 /* a stream position never wraps */
 #define EP_NOWRAP(pos, m) ASSUME((pos) <= SIZE_MAX - (size_t)(m))
